@@ -79,10 +79,27 @@ theorem ordered_traces (w : World) (op : Op) : ∀ ep ∈ episodes w op, traceOK
     simp only [episodes, List.mem_singleton] at hep
     subst hep; exact workloads_ok w ig ids [] (by intro h hm; cases hm)
 
-/-- an episode cut short by a failing acquisition (wait timeout, store error) is disciplined too -/
+/-- an episode cut short by a failure among its LEADING acquisitions (the outer `withNodesLocked` /
+    `withWorkloadsLocked` bracket: wait timeout, store error) is disciplined too; a failure inside a
+    nested bracket is `nested_acquisition_failure_ok` -/
 theorem failed_acquisition_ok (w : World) (op : Op) (k : Nat) :
     ∀ ep ∈ episodes w op, traceOK (failTrunc k ep) = true :=
   fun ep hep => failTrunc_ok k ep (ordered_traces w op ep hep)
+
+/-- a nested bracket (`withWorkloadLocked` under a held pod lock) that fails after taking `j` of its
+    keys — they are released again, its callback does not run — leaves the enclosing trace
+    disciplined; with `j = 0` and one key this is "drop a balanced acq/rel pair" -/
+theorem nested_acquisition_failure_ok (a b : Trace) (g : Nat) (names : List String) (body : Trace) (j : Nat)
+    (h : List Key) (ha : R [] a = some h) (hp : names.Pairwise (· < ·))
+    (hlt : ∀ x ∈ h, ∀ n ∈ names, keyLt x ⟨g, n⟩ = true) (hop : g = gNodeOp → ∀ x ∈ h, x.group = gNodeOp)
+    (hbody : R ((names.map (Key.mk g)).reverse ++ h) body = some ((names.map (Key.mk g)).reverse ++ h))
+    (hall : traceOK (a ++ ((names.map (Key.mk g)).map .acq ++ body ++ (names.map (Key.mk g)).reverse.map .rel) ++ b) = true) :
+    traceOK (a ++ (((names.take j).map (Key.mk g)).map .acq ++ [] ++ ((names.take j).map (Key.mk g)).reverse.map .rel) ++ b) = true := by
+  rw [traceOK_iff] at hall ⊢
+  exact nested_failure_ok a b g names body j h ha hp hlt hop hbody hall
+
+example : traceOK [.acq ⟨0, "pa"⟩, .acq ⟨1, "w1"⟩, .rel ⟨1, "w1"⟩, .acq ⟨1, "w2"⟩, .rel ⟨1, "w2"⟩, .rel ⟨0, "pa"⟩] = true ∧
+    traceOK [.acq ⟨0, "pa"⟩, .acq ⟨1, "w2"⟩, .rel ⟨1, "w2"⟩, .rel ⟨0, "pa"⟩] = true := by decide
 
 /-- **nesting_ok.**  Every call site of a lock helper in cluster/calcium (table re-derived from the
     source on every run) nests only pod ⊃ workload; node-operation locks are never nested. -/
@@ -95,12 +112,23 @@ theorem formatted_key_order (pfx a b : String) : pfx ++ a < pfx ++ b ↔ a < b :
 /-- threads that run episodes of cluster operations, started holding nothing -/
 def threadsOf (eps : List Trace) : List (Thread Key) := eps.map fun ep => ⟨[], ep⟩
 
+/-- every trace a thread may run: a lock episode of some operation on some store content (each
+    episode may see a different store content — the store changes between operations), possibly cut
+    short by a failing acquisition -/
+def IsEpisode (ep : Trace) : Prop :=
+  ∃ (w : World) (op : Op) (e : Trace), e ∈ episodes w op ∧ (ep = e ∨ ∃ k, ep = failTrunc k e)
+
+theorem isEpisode_ok (ep : Trace) (h : IsEpisode ep) : traceOK ep = true := by
+  obtain ⟨w, op, e, he, h1 | ⟨k, h1⟩⟩ := h
+  · rw [h1]; exact ordered_traces w op e he
+  · rw [h1]; exact failTrunc_ok k e (ordered_traces w op e he)
+
 /-- **no_deadlock.**  Take any number of concurrently running lock episodes of any cluster
-    operations on any store content.  In every state reachable by interleaving their lock events
-    (an acquisition only succeeds when the key is free), as long as some episode is unfinished some
-    episode can take its next step: no combination of operations deadlocks on locks. -/
-theorem no_deadlock (w : World) (ops : List Op) (eps : List Trace)
-    (heps : ∀ ep ∈ eps, ∃ op ∈ ops, ep ∈ episodes w op)
+    operations, each on its own view of the store, some cut short by failing acquisitions.  In
+    every state reachable by interleaving their lock events (an acquisition only succeeds when the
+    key is free), as long as some episode is unfinished some episode can take its next step: no
+    combination of operations deadlocks on locks. -/
+theorem no_deadlock (eps : List Trace) (heps : ∀ ep ∈ eps, IsEpisode ep)
     (s : List (Thread Key)) (hreach : Reach (threadsOf eps) s) (hlive : ∃ t ∈ s, t.rest ≠ []) :
     ∃ s', Step s s' := by
   apply progress keyLt nodeOpRule keyLt_irrefl keyLt_trans s _ hlive
@@ -109,12 +137,10 @@ theorem no_deadlock (w : World) (ops : List Op) (eps : List Trace)
   simp only [threadsOf, List.mem_map] at ht
   obtain ⟨ep, hep, e⟩ := ht
   subst e
-  obtain ⟨op, _, hop⟩ := heps ep hep
-  exact (traceOK_iff ep).mp (ordered_traces w op ep hop)
+  exact (traceOK_iff ep).mp (isEpisode_ok ep (heps ep hep))
 
 /-- the same in graph form: in every reachable state the wait-for graph has no cycle -/
-theorem waitfor_graph_acyclic (w : World) (ops : List Op) (eps : List Trace)
-    (heps : ∀ ep ∈ eps, ∃ op ∈ ops, ep ∈ episodes w op)
+theorem waitfor_graph_acyclic (eps : List Trace) (heps : ∀ ep ∈ eps, IsEpisode ep)
     (s : List (Thread Key)) (hreach : Reach (threadsOf eps) s) (t : Thread Key) :
     ¬ Relation.TransGen (WaitsFor s) t t := by
   apply waitfor_acyclic keyLt nodeOpRule keyLt_irrefl keyLt_trans s
@@ -123,8 +149,7 @@ theorem waitfor_graph_acyclic (w : World) (ops : List Op) (eps : List Trace)
   simp only [threadsOf, List.mem_map] at ht
   obtain ⟨ep, hep, e⟩ := ht
   subst e
-  obtain ⟨op, _, hop⟩ := heps ep hep
-  exact (traceOK_iff ep).mp (ordered_traces w op ep hop)
+  exact (traceOK_iff ep).mp (isEpisode_ok ep (heps ep hep))
 
 /-- the general theorem behind it (any key type, any strict partial order of ranks) -/
 theorem no_deadlock_general {K : Type} [DecidableEq K] (lt : K → K → Bool) (extra : List K → K → Bool)
